@@ -14,7 +14,7 @@ MUTANTS = [
     (
         "reassembly-keyed-by-stream-function",
         "secsgem/common/protocol.py",
-        """        if block.header.system not in self._incomplete_messages:
+        """        if block.header.system not in self._incomplete_messages or getattr(block.header, "block", None) in (0, 1):
             self._incomplete_messages[block.header.system] = self.message_type.from_block(block)
         else:
             self._incomplete_messages[block.header.system].blocks.append(block)
@@ -26,7 +26,7 @@ MUTANTS = [
 
         del self._incomplete_messages[block.header.system]""",
         """        key = (block.header.stream << 8) | block.header.function
-        if key not in self._incomplete_messages:
+        if key not in self._incomplete_messages or getattr(block.header, "block", None) in (0, 1):
             self._incomplete_messages[key] = self.message_type.from_block(block)
         else:
             self._incomplete_messages[key].blocks.append(block)
@@ -43,5 +43,21 @@ MUTANTS = [
         "secsgem/common/protocol.py",
         "        del self._incomplete_messages[block.header.system]\n        return message",
         "        return message",
+    ),
+    # consecutive complete messages of distinct transactions with equal system bytes ("reuse" cases)
+    (
+        "duplicate-filter-ignores-function-and-bits",
+        "secsgem/common/protocol.py",
+        "        # a first block starts a new message, blocks left from an attempt that failed in the middle are dropped\n",
+        "        _vf_key = (block.header.system, getattr(block.header, \"block\", None), block.header.stream)\n"
+        "        if getattr(self, \"_vf_last_block\", None) == _vf_key:\n            return None\n        self._vf_last_block = _vf_key\n"
+        "        # a first block starts a new message, blocks left from an attempt that failed in the middle are dropped\n",
+    ),
+    (
+        "completed-system-bytes-block-the-next-message",
+        "secsgem/common/protocol.py",
+        "        del self._incomplete_messages[block.header.system]\n        return message",
+        "        del self._incomplete_messages[block.header.system]\n        if getattr(self, \"_vf_last_done\", None) == (block.header.system, len(message.blocks)):\n            return None\n"
+        "        self._vf_last_done = (block.header.system, len(message.blocks))\n        return message",
     ),
 ]
